@@ -17,6 +17,16 @@
      - the length a caller's vector must have for each vector-taking setter (`vec_need`,
        `vec_ok`): the library cannot check it, so it is a premise of the refinement theorems.
 
+   Two rules are NOT the manual's wording but the code's (second review): vnadata_get_fmin /
+   vnadata_get_fmax are the FIRST and LAST element of the frequency vector (vnadata(3): "the lowest
+   and highest frequencies" - the same thing only for an ascending vector:
+   AccessorsProofs.fmin_fmax_lowest_highest_when_ascending / .._refuted_unordered), and
+   vnadata_get_fz0 / vnadata_get_fz0_vector test the frequency index also in ordinary mode
+   (vnadata(3): "they don't use the findex argument"); the property text ("any index outside
+   [0, n) is refused") sides with the code; fixes/proposed/DH91 rewords the manual.
+   vnadata_add_frequency leaves the hidden part of the array alone here; that the new row is
+   initial is AccessorsProofs.add_frequency_exposes_initial (on the model, from its invariant).
+
    What is shared with DataModel (this file imports it for the vocabulary only): the types of the
    interface - parameter type codes `vpt` / `vpt_of_Z`, operations `op`, outcomes `outcome` /
    `payload` - the interval test `in_range i n` (DataProofs.in_range_spec: true iff 0 <= i < n),
